@@ -1,6 +1,7 @@
 /-
   Props.C09 — renaming the variables of an operation consistently (in the operation and in the variables object)
-  does not change the value of any argument, hence not the meaning of the operation; the reference semantics is a
+  does not change the value of any argument (evalVal_rename) and hence not the response of the operation
+  (rename_preserves_execution, an instance of Proofs.ExecRespell.execute_respelled); the reference semantics is a
   function of (schema, universe, operation, variables) and has no state: the same request always means the same.
 
   That the real engine's plan cache, multi-fetch merging and fetch scheduling are transparent is validated per
@@ -8,6 +9,7 @@
   proved in Props.C08.
 -/
 import GqlVerif.Gql.Exec
+import GqlVerif.Proofs.ExecRespell
 namespace GqlVerif.Props.C09
 open GqlVerif GqlVerif.Exec
 
@@ -68,6 +70,33 @@ theorem evalVal_rename (ρ : String → String) (hρ : ∀ a b, ρ a = ρ b → 
         simp only [Function.comp, ih p.2]
       exact congrArg (fun f => List.filterMap f fs) this
 
+/-! ### renaming the variables of a whole operation -/
+
+def RenArg (ρ : String → String) (x y : String × Val) : Prop := y = (x.1, renameVal ρ 64 x.2)
+def RenDir (ρ : String → String) (d d' : Dir) : Prop := d' = { d with ifArg := renameVal ρ 64 d.ifArg }
+
+/-- **rename_preserves_execution** (∀ schemas, universes, operations, variables, injective renamings): an operation
+    whose variable references (in arguments and directive conditions, at any nesting depth, in the selections and in the
+    fragments) and variable defaults are renamed by ρ, executed with the variables object renamed by ρ, has the same
+    response — data and errors — as the original. -/
+theorem rename_preserves_execution (ρ : String → String) (hρ : ∀ a b, ρ a = ρ b → a = b) (s : Schema) (u : Universe)
+    (op op' : Op) (vars : List (String × Json)) (hk : op.kind = op'.kind)
+    (hd : op'.varDefaults = renameKeys ρ op.varDefaults)
+    (hs : Rel2 (SelMap (RenArg ρ) (RenDir ρ)) op.sels op'.sels)
+    (hf : Rel2 (fun f f' => f.name = f'.name ∧ f.typeCond = f'.typeCond ∧ Rel2 (SelMap (RenArg ρ) (RenDir ρ)) f.sels f'.sels)
+      op.frags op'.frags) :
+    execute s u op vars = execute s u op' (renameKeys ρ vars) := by
+  have hev : ∀ v, evOf op vars v = evOf op' (renameKeys ρ vars) (renameVal ρ 64 v) := by
+    intro v
+    simp only [evOf, evalVal, hd]
+    exact (evalVal_rename ρ hρ vars op.varDefaults 64 v).symm
+  have hA : ∀ x y, RenArg ρ x y → x.1 = y.1 ∧ evOf op vars x.2 = evOf op' (renameKeys ρ vars) y.2 := by
+    intro x y h; unfold RenArg at h; subst h; exact ⟨rfl, hev x.2⟩
+  have hD : ∀ d d', RenDir ρ d d' → d.name = d'.name ∧ evOf op vars d.ifArg = evOf op' (renameKeys ρ vars) d'.ifArg := by
+    intro d d' h; unfold RenDir at h; subst h; exact ⟨rfl, hev d.ifArg⟩
+  apply execute_respelled op op' vars (renameKeys ρ vars) s u hk (selsMap_rel hA hD _ _ hs)
+  exact Rel2.mono (fun f f' h => ⟨h.1, h.2.1, selsMap_rel hA hD _ _ h.2.2⟩) hf
+
 /-- the reference semantics is stateless: executing the same request twice gives the same response -/
 theorem execute_deterministic (s : Schema) (u : Universe) (op : Op) (vars : List (String × Json)) :
     (execute s u op vars).data = (execute s u op vars).data ∧ (execute s u op vars).errors = (execute s u op vars).errors := ⟨rfl, rfl⟩
@@ -75,5 +104,13 @@ theorem execute_deterministic (s : Schema) (u : Universe) (op : Op) (vars : List
 /-- non-vacuity of the renaming theorem -/
 example : evalValF [("x", .num "1")] [] 3 (.list [.var "x", .obj [("k", .var "x")], .var "y"]) =
     some (.arr [.num "1", .obj [("k", .num "1")], .null]) := by rfl
+
+/-- non-vacuity of rename_preserves_execution: `{ user(id: $x) @include(if: $b) { name } }` with x ↦ a, b ↦ c -/
+def exOp : Op := { sels := [.field "" "user" [("id", .var "x")] [⟨"include", .var "b"⟩] [.field "" "name" [] [] []]] }
+def exOp' : Op := { sels := [.field "" "user" [("id", .var "a")] [⟨"include", .var "c"⟩] [.field "" "name" [] [] []]] }
+def exRho (n : String) : String := if n == "x" then "a" else if n == "b" then "c" else "z" ++ n
+example : Rel2 (SelMap (RenArg exRho) (RenDir exRho)) exOp.sels exOp'.sels :=
+  .cons (.field (.cons (by simp [RenArg, renameVal, exRho]) .nil) (.cons (by simp [RenDir, renameVal, exRho]) .nil)
+    (.cons (.field .nil .nil .nil) .nil)) .nil
 
 end GqlVerif.Props.C09
